@@ -399,6 +399,136 @@ def «urcu_wake_all_waiters» : Stmt :=
   block [(.call (some "_t3") ["head"] [.pload (.fieldAddr (.var "waiters") "head")] «_cds_wfs_first»), (.assign "_t1" (.var "_t3")), (.loop (block [(.assign "iter" (.var "_t1")), (.ifte (.var "iter") (.skip) (.brk)), (.call (some "_t4") ["node"] [.var "iter"] «_cds_wfs_next_blocking»), (.assign "_t1" (.var "_t4")), (.assign "iter_n" (.var "_t1")), (.assign "wait_node" (.var "iter")), (.prim (some "_t2") .uload [.fieldAddr (.var "wait_node") "state", .cst "CMM_RELAXED" (0)]), (.ifte (.bin .band (.var "_t2") (.cst "URCU_WAIT_RUNNING" (2))) (.cont) (.skip)), (.call none ["wait"] [.var "wait_node"] «urcu_adaptative_wake_up»)]))]
 def «urcu_wake_all_waiters.params» : List String := ["waiters"]
 
+/-- `set_thread_cpu_affinity` (src/urcu-call-rcu-impl.h) -/
+def «set_thread_cpu_affinity» : Stmt :=
+  block [(.ifte (.bin .lt (.pload (.fieldAddr (.var "crdp") "cpu_affinity")) (.lit 0)) (.ret (some (.lit 0))) (.skip)), (.assign "_t1" (.bin .add (.pload (.fieldAddr (.var "crdp") "gp_count")) (.lit 1))), (.pstore (.fieldAddr (.var "crdp") "gp_count") (.var "_t1")), (.ifte (.bin .band (.var "_t1") (.cst "SET_AFFINITY_CHECK_PERIOD_MASK" (255))) (.ret (some (.lit 0))) (.skip)), (.prim (some "_t2") (.ext "urcu_sched_getcpu") []), (.ifte (.bin .eq (.var "_t2") (.pload (.fieldAddr (.var "crdp") "cpu_affinity"))) (.ret (some (.lit 0))) (.skip)), (.prim none (.ext "CPU_ZERO") [.addrGlob "&mask"]), (.prim none (.ext "CPU_SET") [.pload (.fieldAddr (.var "crdp") "cpu_affinity"), .addrGlob "&mask"]), (.prim (some "_t3") (.ext "sched_setaffinity") [.lit 0, .cst "SIZEOF_cpu_set_t" (128), .addrGlob "&mask"]), (.assign "ret" (.var "_t3")), (.ifte (.var "ret") (block [(.prim (some "_t4") (.ext "errno") []), (.assign "_t5" (.un .lnot (.un .lnot (.bin .eq (.var "_t4") (.cst "EINVAL" (22))))))]) (.assign "_t5" (.lit 0))), (.ifte (.var "_t5") (block [(.assign "ret" (.lit 0)), (.assign "_t6" (.lit 0)), (.pstore (.addrGlob "errno") (.var "_t6"))]) (.skip)), (.ret (some (.var "ret")))]
+def «set_thread_cpu_affinity.params» : List String := ["crdp"]
+
+/-- `_cds_wfcq_init` (include/urcu/static/wfcqueue.h) -/
+def «_cds_wfcq_init» : Stmt :=
+  block [(.call none ["node"] [.var "head"] «_cds_wfcq_node_init»), (.assign "_t1" (.var "head")), (.pstore (.fieldAddr (.var "tail") "p") (.var "_t1")), (.prim (some "_t2") (.ext "pthread_mutex_init") [.fieldAddr (.var "head") "lock", .null]), (.assign "ret" (.var "_t2"))]
+def «_cds_wfcq_init.params» : List String := ["head", "tail"]
+
+/-- `___cds_wfcq_splice_blocking` (include/urcu/static/wfcqueue.h) -/
+def «___cds_wfcq_splice_blocking» : Stmt :=
+  block [(.call (some "_t1") ["u_dest_q_head", "dest_q_tail", "u_src_q_head", "src_q_tail", "blocking"] [.var "dest_q_head", .var "dest_q_tail", .var "src_q_head", .var "src_q_tail", .lit 1] «___cds_wfcq_splice»), (.ret (some (.var "_t1")))]
+def «___cds_wfcq_splice_blocking.params» : List String := ["dest_q_head", "dest_q_tail", "src_q_head", "src_q_tail"]
+
+/-- `___cds_wfcq_first` (include/urcu/static/wfcqueue.h) -/
+def «___cds_wfcq_first» : Stmt :=
+  block [(.assign "head" (.var "u_head")), (.call (some "_t1") ["u_head", "tail"] [.var "head", .var "tail"] «_cds_wfcq_empty»), (.ifte (.var "_t1") (.ret (some (.null))) (.skip)), (.call (some "_t2") ["node", "blocking"] [.var "head", .var "blocking"] «___cds_wfcq_node_sync_next»), (.assign "node" (.var "_t2")), (.ret (some (.var "node")))]
+def «___cds_wfcq_first.params» : List String := ["u_head", "tail", "blocking"]
+
+/-- `___cds_wfcq_first_blocking` (include/urcu/static/wfcqueue.h) -/
+def «___cds_wfcq_first_blocking» : Stmt :=
+  block [(.call (some "_t1") ["u_head", "tail", "blocking"] [.var "head", .var "tail", .lit 1] «___cds_wfcq_first»), (.ret (some (.var "_t1")))]
+def «___cds_wfcq_first_blocking.params» : List String := ["head", "tail"]
+
+/-- `___cds_wfcq_next` (include/urcu/static/wfcqueue.h) -/
+def «___cds_wfcq_next» : Stmt :=
+  block [(.prim (some "_t1") .uload [.fieldAddr (.var "node") "next", .cst "CMM_CONSUME" (1)]), (.assign "next" (.var "_t1")), (.ifte (.bin .eq (.var "next") (.null)) (block [(.prim (some "_t2") .uload [.fieldAddr (.var "tail") "p", .cst "CMM_RELAXED" (0)]), (.ifte (.bin .eq (.var "_t2") (.var "node")) (.ret (some (.null))) (.skip)), (.call (some "_t3") ["node", "blocking"] [.var "node", .var "blocking"] «___cds_wfcq_node_sync_next»), (.assign "next" (.var "_t3"))]) (.skip)), (.ret (some (.var "next")))]
+def «___cds_wfcq_next.params» : List String := ["head", "tail", "node", "blocking"]
+
+/-- `___cds_wfcq_next_blocking` (include/urcu/static/wfcqueue.h) -/
+def «___cds_wfcq_next_blocking» : Stmt :=
+  block [(.call (some "_t1") ["head", "tail", "node", "blocking"] [.var "head", .var "tail", .var "node", .lit 1] «___cds_wfcq_next»), (.ret (some (.var "_t1")))]
+def «___cds_wfcq_next_blocking.params» : List String := ["head", "tail", "node"]
+
+/-- `call_rcu_thread` (src/urcu-call-rcu-impl.h) -/
+def «call_rcu_thread» : Stmt :=
+  block [(.assign "crdp" (.var "arg")), (.prim (some "_t1") .uload [.fieldAddr (.var "crdp") "flags", .cst "CMM_RELAXED" (0)]), (.assign "rt" (.un .lnot (.un .lnot (.bin .band (.var "_t1") (.cst "URCU_CALL_RCU_RT" (1)))))), (.call (some "_t2") ["crdp"] [.var "crdp"] «set_thread_cpu_affinity»), (.ifte (.var "_t2") (block [(.prim (some "_t3") (.ext "errno") []), (.prim none (.ext "urcu_die") [.var "_t3"])]) (.skip)), (.prim none (.ext "rcu_register_thread") []), (.assign "_t4" (.var "crdp")), (.pstore (.addrTls "thread_call_rcu_data") (.var "_t4")), (.ifte (.un .lnot (.var "rt")) (block [(.prim none .udec [.fieldAddr (.var "crdp") "futex", .cst "CMM_RELAXED" (0)]), (.prim none .mb [])]) (.skip)), (.loop (block [(.call (some "_t5") ["crdp"] [.var "crdp"] «set_thread_cpu_affinity»), (.ifte (.var "_t5") (block [(.prim (some "_t6") (.ext "errno") []), (.prim none (.ext "urcu_die") [.var "_t6"])]) (.skip)), (.prim (some "_t7") .uload [.fieldAddr (.var "crdp") "flags", .cst "CMM_RELAXED" (0)]), (.ifte (.bin .band (.var "_t7") (.cst "URCU_CALL_RCU_PAUSE" (16))) (block [(.prim none (.ext "rcu_unregister_thread") []), (.prim none .barrier []), (.prim none .uor [.fieldAddr (.var "crdp") "flags", .cst "URCU_CALL_RCU_PAUSED" (32), .cst "CMM_RELAXED" (0)]), (.loop (block [(.prim (some "_t8") .uload [.fieldAddr (.var "crdp") "flags", .cst "CMM_RELAXED" (0)]), (.ifte (.bin .ne (.bin .band (.var "_t8") (.cst "URCU_CALL_RCU_PAUSE" (16))) (.lit 0)) (.prim none (.ext "poll") [.null, .lit 0, .lit 1]) (.brk))])), (.prim none .uand [.fieldAddr (.var "crdp") "flags", .cst "NOT_URCU_CALL_RCU_PAUSED" (18446744073709551583), .cst "CMM_SEQ_CST" (5)]), (.prim none .barrier []), (.prim none (.ext "rcu_register_thread") [])]) (.skip)), (.call none ["head", "tail"] [.addrGlob "&cbs_tmp_head", .addrGlob "&cbs_tmp_tail"] «_cds_wfcq_init»), (.call (some "_t9") ["dest_q_head", "dest_q_tail", "src_q_head", "src_q_tail"] [.addrGlob "&cbs_tmp_head", .addrGlob "&cbs_tmp_tail", .fieldAddr (.var "crdp") "cbs_head", .fieldAddr (.var "crdp") "cbs_tail"] «___cds_wfcq_splice_blocking»), (.assign "splice_ret" (.var "_t9")), (.ifte (.bin .ne (.var "splice_ret") (.cst "CDS_WFCQ_RET_SRC_EMPTY" (2))) (block [(.prim none (.ext "synchronize_rcu") []), (.assign "cbcount" (.lit 0)), (.call (some "_t12") ["head", "tail"] [.addrGlob "&cbs_tmp_head", .addrGlob "&cbs_tmp_tail"] «___cds_wfcq_first_blocking»), (.assign "_t10" (.var "_t12")), (.loop (block [(.assign "cbs" (.var "_t10")), (.ifte (.var "cbs") (.skip) (.brk)), (.call (some "_t13") ["head", "tail", "node"] [.addrGlob "&cbs_tmp_head", .addrGlob "&cbs_tmp_tail", .var "cbs"] «___cds_wfcq_next_blocking»), (.assign "_t10" (.var "_t13")), (.assign "cbs_tmp_n" (.var "_t10")), (.assign "rhp" (.parent (.var "cbs") "next")), (.prim none (.ext "(*func)") [.pload (.fieldAddr (.var "rhp") "func"), .var "rhp"]), (.assign "_t11" (.var "cbcount")), (.assign "cbcount" (.bin .add (.var "cbcount") (.lit 1)))])), (.prim none .usub [.fieldAddr (.var "crdp") "qlen", .var "cbcount", .cst "CMM_RELAXED" (0)])]) (.skip)), (.prim (some "_t14") .uload [.fieldAddr (.var "crdp") "flags", .cst "CMM_RELAXED" (0)]), (.ifte (.bin .band (.var "_t14") (.cst "URCU_CALL_RCU_STOP" (4))) (.brk) (.skip)), (.prim none (.ext "rcu_thread_offline") []), (.ifte (.un .lnot (.var "rt")) (block [(.call (some "_t15") ["u_head", "tail"] [.fieldAddr (.var "crdp") "cbs_head", .fieldAddr (.var "crdp") "cbs_tail"] «_cds_wfcq_empty»), (.ifte (.var "_t15") (block [(.call none ["crdp"] [.var "crdp"] «call_rcu_wait»), (.prim none (.ext "poll") [.null, .lit 0, .lit 10]), (.prim none .udec [.fieldAddr (.var "crdp") "futex", .cst "CMM_RELAXED" (0)]), (.prim none .mb [])]) (.prim none (.ext "poll") [.null, .lit 0, .lit 10]))]) (.prim none (.ext "poll") [.null, .lit 0, .lit 10])), (.prim none (.ext "rcu_thread_online") [])])), (.ifte (.un .lnot (.var "rt")) (block [(.prim none .mb []), (.prim none .ustore [.fieldAddr (.var "crdp") "futex", .lit 0, .cst "CMM_RELAXED" (0)])]) (.skip)), (.prim none .uor [.fieldAddr (.var "crdp") "flags", .cst "URCU_CALL_RCU_STOPPED" (8), .cst "CMM_RELAXED" (0)]), (.prim none (.ext "rcu_unregister_thread") []), (.ret (some (.null)))]
+def «call_rcu_thread.params» : List String := ["arg"]
+
+/-- `call_rcu` (src/urcu-call-rcu-impl.h) -/
+def «call_rcu» : Stmt :=
+  block [(.prim none (.ext "_rcu_read_lock") []), (.prim (some "_t1") (.ext "get_call_rcu_data") []), (.assign "crdp" (.var "_t1")), (.call none ["head", "func", "crdp"] [.var "head", .var "func", .var "crdp"] «_call_rcu»), (.prim none (.ext "_rcu_read_unlock") [])]
+def «call_rcu.params» : List String := ["head", "func"]
+
+/-- `call_rcu_lock` (src/urcu-call-rcu-impl.h) -/
+def «call_rcu_lock» : Stmt :=
+  block [(.prim (some "_t1") (.ext "pthread_mutex_lock") [.var "pmp"]), (.assign "ret" (.var "_t1")), (.ifte (.var "ret") (.prim none (.ext "urcu_die") [.var "ret"]) (.skip))]
+def «call_rcu_lock.params» : List String := ["pmp"]
+
+/-- `urcu_ref_set` (include/urcu/ref.h) -/
+def «urcu_ref_set» : Stmt :=
+  .prim none .ustore [.fieldAddr (.var "ref") "refcount", .var "val", .cst "CMM_RELAXED" (0)]
+def «urcu_ref_set.params» : List String := ["ref", "val"]
+
+/-- `call_rcu_unlock` (src/urcu-call-rcu-impl.h) -/
+def «call_rcu_unlock» : Stmt :=
+  block [(.prim (some "_t1") (.ext "pthread_mutex_unlock") [.var "pmp"]), (.assign "ret" (.var "_t1")), (.ifte (.var "ret") (.prim none (.ext "urcu_die") [.var "ret"]) (.skip))]
+def «call_rcu_unlock.params» : List String := ["pmp"]
+
+/-- `rcu_barrier` (src/urcu-call-rcu-impl.h) -/
+def «rcu_barrier» : Stmt :=
+  block [(.assign "_goto_online" (.lit 0)), (.assign "count" (.lit 0)), (.prim (some "_t1") (.ext "_rcu_read_ongoing") []), (.assign "was_online" (.var "_t1")), (.ifte (.var "was_online") (.prim none (.ext "rcu_thread_offline") []) (.skip)), (.prim (some "_t2") (.ext "_rcu_read_ongoing") []), (.ifte (.var "_t2") (block [(.assign "warned" (.lit 0)), (.ifte (.un .lnot (.var "warned")) (.prim none (.ext "fprintf") [.pload (.addrGlob "stderr"), .lit 0]) (.skip)), (.assign "warned" (.lit 1)), (.assign "_goto_online" (.lit 1))]) (.skip)), (.ifte (.var "_goto_online") (.skip) (block [(.prim (some "_t3") (.ext "calloc") [.lit 1, .cst "SIZEOF_struct_call_rcu_completion" (16)]), (.assign "completion" (.var "_t3")), (.ifte (.un .lnot (.var "completion")) (block [(.prim (some "_t4") (.ext "errno") []), (.prim none (.ext "urcu_die") [.var "_t4"])]) (.skip)), (.call none ["pmp"] [.addrGlob "call_rcu_mutex"] «call_rcu_lock»), (.prim (some "_t5") (.ext "cds_list_for_each_entry.first") [.addrGlob "call_rcu_data_list"]), (.loop (block [(.assign "crdp" (.var "_t5")), (.ifte (.var "crdp") (.skip) (.brk)), (.prim (some "_t5") (.ext "cds_list_for_each_entry.next") ([.addrGlob "call_rcu_data_list"] ++ [.var "crdp"])), (.assign "_t6" (.var "count")), (.assign "count" (.bin .add (.var "count") (.lit 1)))])), (.call none ["ref", "val"] [.fieldAddr (.var "completion") "ref", .bin .add (.var "count") (.lit 1)] «urcu_ref_set»), (.assign "_t7" (.var "count")), (.pstore (.fieldAddr (.var "completion") "barrier_count") (.var "_t7")), (.prim (some "_t8") (.ext "cds_list_for_each_entry.first") [.addrGlob "call_rcu_data_list"]), (.loop (block [(.assign "crdp" (.var "_t8")), (.ifte (.var "crdp") (.skip) (.brk)), (.prim (some "_t8") (.ext "cds_list_for_each_entry.next") ([.addrGlob "call_rcu_data_list"] ++ [.var "crdp"])), (.prim (some "_t9") (.ext "calloc") [.lit 1, .cst "SIZEOF_struct_call_rcu_completion_work" (24)]), (.assign "work" (.var "_t9")), (.ifte (.un .lnot (.var "work")) (block [(.prim (some "_t10") (.ext "errno") []), (.prim none (.ext "urcu_die") [.var "_t10"])]) (.skip)), (.assign "_t11" (.var "completion")), (.pstore (.fieldAddr (.var "work") "completion") (.var "_t11")), (.call none ["head", "func", "crdp"] [.fieldAddr (.var "work") "head", .addrGlob "_rcu_barrier_complete", .var "crdp"] «_call_rcu»)])), (.call none ["pmp"] [.addrGlob "call_rcu_mutex"] «call_rcu_unlock»), (.loop (block [(.prim none .udec [.fieldAddr (.var "completion") "futex", .cst "CMM_RELAXED" (0)]), (.prim none .mb []), (.prim (some "_t12") .uload [.fieldAddr (.var "completion") "barrier_count", .cst "CMM_RELAXED" (0)]), (.ifte (.un .lnot (.var "_t12")) (.brk) (.skip)), (.call none ["completion"] [.var "completion"] «call_rcu_completion_wait»)])), (.call none ["ref", "release"] [.fieldAddr (.var "completion") "ref", .addrGlob "free_completion"] «urcu_ref_put»)])), (.assign "_goto_online" (.lit 0)), (.ifte (.var "was_online") (.prim none (.ext "rcu_thread_online") []) (.skip))]
+def «rcu_barrier.params» : List String := []
+
+/-- `_rcu_barrier_complete` (src/urcu-call-rcu-impl.h) -/
+def «_rcu_barrier_complete» : Stmt :=
+  block [(.assign "work" (.parent (.var "head") "head")), (.assign "completion" (.pload (.fieldAddr (.var "work") "completion"))), (.prim (some "_t1") .usubret [.fieldAddr (.var "completion") "barrier_count", .lit 1, .cst "CMM_SEQ_CST_FENCE" (6)]), (.ifte (.un .lnot (.var "_t1")) (.call none ["completion"] [.var "completion"] «call_rcu_completion_wake_up») (.skip)), (.call none ["ref", "release"] [.fieldAddr (.var "completion") "ref", .addrGlob "free_completion"] «urcu_ref_put»), (.prim none (.ext "free") [.var "work"])]
+def «_rcu_barrier_complete.params» : List String := ["head"]
+
+/-- `free_completion` (src/urcu-call-rcu-impl.h) -/
+def «free_completion» : Stmt :=
+  block [(.assign "completion" (.parent (.var "ref") "ref")), (.prim none (.ext "free") [.var "completion"])]
+def «free_completion.params» : List String := ["ref"]
+
+/-- `workqueue_thread` (src/workqueue.c) -/
+def «workqueue_thread» : Stmt :=
+  block [(.assign "workqueue" (.var "arg")), (.prim (some "_t1") .uload [.fieldAddr (.var "workqueue") "flags", .cst "CMM_RELAXED" (0)]), (.assign "rt" (.un .lnot (.un .lnot (.bin .band (.var "_t1") (.cst "URCU_WORKQUEUE_RT" (1)))))), (.call (some "_t2") ["crdp"] [.var "workqueue"] «set_thread_cpu_affinity»), (.ifte (.var "_t2") (block [(.prim (some "_t3") (.ext "errno") []), (.prim none (.ext "urcu_die") [.var "_t3"])]) (.skip)), (.ifte (.pload (.fieldAddr (.var "workqueue") "initialize_worker_fct")) (.prim none (.ext "(*initialize_worker_fct)") [.pload (.fieldAddr (.var "workqueue") "initialize_worker_fct"), .var "workqueue", .pload (.fieldAddr (.var "workqueue") "priv")]) (.skip)), (.ifte (.un .lnot (.var "rt")) (block [(.prim none .udec [.fieldAddr (.var "workqueue") "futex", .cst "CMM_RELAXED" (0)]), (.prim none .mb [])]) (.skip)), (.loop (block [(.call (some "_t4") ["crdp"] [.var "workqueue"] «set_thread_cpu_affinity»), (.ifte (.var "_t4") (block [(.prim (some "_t5") (.ext "errno") []), (.prim none (.ext "urcu_die") [.var "_t5"])]) (.skip)), (.prim (some "_t6") .uload [.fieldAddr (.var "workqueue") "flags", .cst "CMM_RELAXED" (0)]), (.ifte (.bin .band (.var "_t6") (.cst "URCU_WORKQUEUE_PAUSE" (4))) (block [(.ifte (.pload (.fieldAddr (.var "workqueue") "worker_before_pause_fct")) (.prim none (.ext "(*worker_before_pause_fct)") [.pload (.fieldAddr (.var "workqueue") "worker_before_pause_fct"), .var "workqueue", .pload (.fieldAddr (.var "workqueue") "priv")]) (.skip)), (.prim none .barrier []), (.prim none .uor [.fieldAddr (.var "workqueue") "flags", .cst "URCU_WORKQUEUE_PAUSED" (8), .cst "CMM_RELAXED" (0)]), (.loop (block [(.prim (some "_t7") .uload [.fieldAddr (.var "workqueue") "flags", .cst "CMM_RELAXED" (0)]), (.ifte (.bin .ne (.bin .band (.var "_t7") (.cst "URCU_WORKQUEUE_PAUSE" (4))) (.lit 0)) (.prim none (.ext "poll") [.null, .lit 0, .lit 1]) (.brk))])), (.prim none .uand [.fieldAddr (.var "workqueue") "flags", .cst "NOT_URCU_WORKQUEUE_PAUSED" (18446744073709551607), .cst "CMM_SEQ_CST" (5)]), (.prim none .barrier []), (.ifte (.pload (.fieldAddr (.var "workqueue") "worker_after_resume_fct")) (.prim none (.ext "(*worker_after_resume_fct)") [.pload (.fieldAddr (.var "workqueue") "worker_after_resume_fct"), .var "workqueue", .pload (.fieldAddr (.var "workqueue") "priv")]) (.skip))]) (.skip)), (.call none ["head", "tail"] [.addrGlob "&cbs_tmp_head", .addrGlob "&cbs_tmp_tail"] «_cds_wfcq_init»), (.call (some "_t8") ["dest_q_head", "dest_q_tail", "src_q_head", "src_q_tail"] [.addrGlob "&cbs_tmp_head", .addrGlob "&cbs_tmp_tail", .fieldAddr (.var "workqueue") "cbs_head", .fieldAddr (.var "workqueue") "cbs_tail"] «___cds_wfcq_splice_blocking»), (.assign "splice_ret" (.var "_t8")), (.ifte (.bin .ne (.var "splice_ret") (.cst "CDS_WFCQ_RET_SRC_EMPTY" (2))) (block [(.ifte (.pload (.fieldAddr (.var "workqueue") "grace_period_fct")) (.prim none (.ext "(*grace_period_fct)") [.pload (.fieldAddr (.var "workqueue") "grace_period_fct"), .var "workqueue", .pload (.fieldAddr (.var "workqueue") "priv")]) (.skip)), (.assign "cbcount" (.lit 0)), (.call (some "_t11") ["head", "tail"] [.addrGlob "&cbs_tmp_head", .addrGlob "&cbs_tmp_tail"] «___cds_wfcq_first_blocking»), (.assign "_t9" (.var "_t11")), (.loop (block [(.assign "cbs" (.var "_t9")), (.ifte (.var "cbs") (.skip) (.brk)), (.call (some "_t12") ["head", "tail", "node"] [.addrGlob "&cbs_tmp_head", .addrGlob "&cbs_tmp_tail", .var "cbs"] «___cds_wfcq_next_blocking»), (.assign "_t9" (.var "_t12")), (.assign "cbs_tmp_n" (.var "_t9")), (.assign "uwp" (.parent (.var "cbs") "next")), (.prim none (.ext "(*func)") [.pload (.fieldAddr (.var "uwp") "func"), .var "uwp"]), (.assign "_t10" (.var "cbcount")), (.assign "cbcount" (.bin .add (.var "cbcount") (.lit 1)))])), (.prim none .usub [.fieldAddr (.var "workqueue") "qlen", .var "cbcount", .cst "CMM_RELAXED" (0)])]) (.skip)), (.prim (some "_t13") .uload [.fieldAddr (.var "workqueue") "flags", .cst "CMM_RELAXED" (0)]), (.ifte (.bin .band (.var "_t13") (.cst "URCU_WORKQUEUE_STOP" (2))) (.brk) (.skip)), (.ifte (.pload (.fieldAddr (.var "workqueue") "worker_before_wait_fct")) (.prim none (.ext "(*worker_before_wait_fct)") [.pload (.fieldAddr (.var "workqueue") "worker_before_wait_fct"), .var "workqueue", .pload (.fieldAddr (.var "workqueue") "priv")]) (.skip)), (.ifte (.un .lnot (.var "rt")) (block [(.call (some "_t14") ["u_head", "tail"] [.fieldAddr (.var "workqueue") "cbs_head", .fieldAddr (.var "workqueue") "cbs_tail"] «_cds_wfcq_empty»), (.ifte (.var "_t14") (block [(.call none ["futex"] [.fieldAddr (.var "workqueue") "futex"] «futex_wait»), (.prim none .udec [.fieldAddr (.var "workqueue") "futex", .cst "CMM_RELAXED" (0)]), (.prim none .mb [])]) (.skip))]) (block [(.call (some "_t15") ["u_head", "tail"] [.fieldAddr (.var "workqueue") "cbs_head", .fieldAddr (.var "workqueue") "cbs_tail"] «_cds_wfcq_empty»), (.ifte (.var "_t15") (.prim none (.ext "poll") [.null, .lit 0, .lit 10]) (.skip))])), (.ifte (.pload (.fieldAddr (.var "workqueue") "worker_after_wake_up_fct")) (.prim none (.ext "(*worker_after_wake_up_fct)") [.pload (.fieldAddr (.var "workqueue") "worker_after_wake_up_fct"), .var "workqueue", .pload (.fieldAddr (.var "workqueue") "priv")]) (.skip))])), (.ifte (.un .lnot (.var "rt")) (block [(.prim none .mb []), (.prim none .ustore [.fieldAddr (.var "workqueue") "futex", .lit 0, .cst "CMM_RELAXED" (0)])]) (.skip)), (.ifte (.pload (.fieldAddr (.var "workqueue") "finalize_worker_fct")) (.prim none (.ext "(*finalize_worker_fct)") [.pload (.fieldAddr (.var "workqueue") "finalize_worker_fct"), .var "workqueue", .pload (.fieldAddr (.var "workqueue") "priv")]) (.skip)), (.ret (some (.null)))]
+def «workqueue_thread.params» : List String := ["arg"]
+
+/-- `urcu_workqueue_queue_work` (src/workqueue.c) -/
+def «urcu_workqueue_queue_work» : Stmt :=
+  block [(.call none ["node"] [.fieldAddr (.var "work") "next"] «_cds_wfcq_node_init»), (.assign "_t1" (.var "func")), (.pstore (.fieldAddr (.var "work") "func") (.var "_t1")), (.call none ["head", "tail", "new_tail"] [.fieldAddr (.var "workqueue") "cbs_head", .fieldAddr (.var "workqueue") "cbs_tail", .fieldAddr (.var "work") "next"] «_cds_wfcq_enqueue»), (.prim none .uinc [.fieldAddr (.var "workqueue") "qlen", .cst "CMM_RELAXED" (0)]), (.call none ["workqueue"] [.var "workqueue"] «wake_worker_thread»)]
+def «urcu_workqueue_queue_work.params» : List String := ["workqueue", "work", "func"]
+
+/-- `urcu_workqueue_create_completion` (src/workqueue.c) -/
+def «urcu_workqueue_create_completion» : Stmt :=
+  block [(.prim (some "_t1") (.ext "calloc") [.lit 1, .cst "SIZEOF_struct_urcu_workqueue_completion" (16)]), (.assign "completion" (.var "_t1")), (.ifte (.un .lnot (.var "completion")) (block [(.prim (some "_t2") (.ext "errno") []), (.prim none (.ext "urcu_die") [.var "_t2"])]) (.skip)), (.call none ["ref", "val"] [.fieldAddr (.var "completion") "ref", .lit 1] «urcu_ref_set»), (.assign "_t3" (.lit 0)), (.pstore (.fieldAddr (.var "completion") "barrier_count") (.var "_t3")), (.ret (some (.var "completion")))]
+def «urcu_workqueue_create_completion.params» : List String := []
+
+/-- `urcu_ref_get` (include/urcu/ref.h) -/
+def «urcu_ref_get» : Stmt :=
+  block [(.call (some "_t1") ["ref"] [.var "ref"] «urcu_ref_get_safe»), (.ifte (.un .lnot (.var "_t1")) (.prim none (.ext "abort") []) (.skip))]
+def «urcu_ref_get.params» : List String := ["ref"]
+
+/-- `urcu_workqueue_queue_completion` (src/workqueue.c) -/
+def «urcu_workqueue_queue_completion» : Stmt :=
+  block [(.prim (some "_t1") (.ext "calloc") [.lit 1, .cst "SIZEOF_struct_urcu_workqueue_completion_work" (24)]), (.assign "work" (.var "_t1")), (.ifte (.un .lnot (.var "work")) (block [(.prim (some "_t2") (.ext "errno") []), (.prim none (.ext "urcu_die") [.var "_t2"])]) (.skip)), (.assign "_t3" (.var "completion")), (.pstore (.fieldAddr (.var "work") "completion") (.var "_t3")), (.call none ["ref"] [.fieldAddr (.var "completion") "ref"] «urcu_ref_get»), (.prim none .uinc [.fieldAddr (.var "completion") "barrier_count", .cst "CMM_RELAXED" (0)]), (.call none ["workqueue", "work", "func"] [.var "workqueue", .fieldAddr (.var "work") "work", .addrGlob "_urcu_workqueue_wait_complete"] «urcu_workqueue_queue_work»)]
+def «urcu_workqueue_queue_completion.params» : List String := ["workqueue", "completion"]
+
+/-- `urcu_workqueue_wait_completion` (src/workqueue.c) -/
+def «urcu_workqueue_wait_completion» : Stmt :=
+  .loop (block [(.prim none .udec [.fieldAddr (.var "completion") "futex", .cst "CMM_RELAXED" (0)]), (.prim none .mb []), (.prim (some "_t1") .uload [.fieldAddr (.var "completion") "barrier_count", .cst "CMM_RELAXED" (0)]), (.ifte (.un .lnot (.var "_t1")) (.brk) (.skip)), (.call none ["futex"] [.fieldAddr (.var "completion") "futex"] «futex_wait»)])
+def «urcu_workqueue_wait_completion.params» : List String := ["completion"]
+
+/-- `urcu_workqueue_destroy_completion` (src/workqueue.c) -/
+def «urcu_workqueue_destroy_completion» : Stmt :=
+  .call none ["ref", "release"] [.fieldAddr (.var "completion") "ref", .addrGlob "free_completion"] «urcu_ref_put»
+def «urcu_workqueue_destroy_completion.params» : List String := ["completion"]
+
+/-- `urcu_workqueue_flush_queued_work` (src/workqueue.c) -/
+def «urcu_workqueue_flush_queued_work» : Stmt :=
+  block [(.call (some "_t1") [] [] «urcu_workqueue_create_completion»), (.assign "completion" (.var "_t1")), (.ifte (.un .lnot (.var "completion")) (.prim none (.ext "urcu_die") [.cst "ENOMEM" (12)]) (.skip)), (.call none ["workqueue", "completion"] [.var "workqueue", .var "completion"] «urcu_workqueue_queue_completion»), (.call none ["completion"] [.var "completion"] «urcu_workqueue_wait_completion»), (.call none ["completion"] [.var "completion"] «urcu_workqueue_destroy_completion»)]
+def «urcu_workqueue_flush_queued_work.params» : List String := ["workqueue"]
+
+/-- `urcu_workqueue_pause_worker` (src/workqueue.c) -/
+def «urcu_workqueue_pause_worker» : Stmt :=
+  block [(.prim none .uor [.fieldAddr (.var "workqueue") "flags", .cst "URCU_WORKQUEUE_PAUSE" (4), .cst "CMM_RELAXED" (0)]), (.prim none .barrier []), (.call none ["workqueue"] [.var "workqueue"] «wake_worker_thread»), (.loop (block [(.prim (some "_t1") .uload [.fieldAddr (.var "workqueue") "flags", .cst "CMM_RELAXED" (0)]), (.ifte (.bin .eq (.bin .band (.var "_t1") (.cst "URCU_WORKQUEUE_PAUSED" (8))) (.lit 0)) (.prim none (.ext "poll") [.null, .lit 0, .lit 1]) (.brk))]))]
+def «urcu_workqueue_pause_worker.params» : List String := ["workqueue"]
+
+/-- `urcu_workqueue_resume_worker` (src/workqueue.c) -/
+def «urcu_workqueue_resume_worker» : Stmt :=
+  block [(.prim none .uand [.fieldAddr (.var "workqueue") "flags", .cst "NOT_URCU_WORKQUEUE_PAUSE" (18446744073709551611), .cst "CMM_SEQ_CST" (5)]), (.loop (block [(.prim (some "_t1") .uload [.fieldAddr (.var "workqueue") "flags", .cst "CMM_RELAXED" (0)]), (.ifte (.bin .ne (.bin .band (.var "_t1") (.cst "URCU_WORKQUEUE_PAUSED" (8))) (.lit 0)) (.prim none (.ext "poll") [.null, .lit 0, .lit 1]) (.brk))]))]
+def «urcu_workqueue_resume_worker.params» : List String := ["workqueue"]
+
+/-- `_urcu_workqueue_wait_complete` (src/workqueue.c) -/
+def «_urcu_workqueue_wait_complete» : Stmt :=
+  block [(.assign "completion_work" (.parent (.var "work") "work")), (.assign "completion" (.pload (.fieldAddr (.var "completion_work") "completion"))), (.prim (some "_t1") .usubret [.fieldAddr (.var "completion") "barrier_count", .lit 1, .cst "CMM_SEQ_CST_FENCE" (6)]), (.ifte (.un .lnot (.var "_t1")) (.call none ["futex"] [.fieldAddr (.var "completion") "futex"] «futex_wake_up») (.skip)), (.call none ["ref", "release"] [.fieldAddr (.var "completion") "ref", .addrGlob "free_completion"] «urcu_ref_put»), (.prim none (.ext "free") [.var "completion_work"])]
+def «_urcu_workqueue_wait_complete.params» : List String := ["work"]
+
 /-- `smp_mb_master` (src/urcu.c, with RCU_MEMBARRIER) -/
 def «memb.smp_mb_master» : Stmt :=
   .ifte (.pload (.addrGlob "urcu_memb_has_sys_membarrier")) (block [(.ifte (.pload (.addrGlob "urcu_memb_has_sys_membarrier_private_expedited")) (.assign "_t1" (.cst "MEMBARRIER_CMD_PRIVATE_EXPEDITED" (8))) (.assign "_t1" (.cst "MEMBARRIER_CMD_SHARED" (1)))), (.prim (some "_t2") (.ext "membarrier") [.var "_t1", .lit 0]), (.ifte (.var "_t2") (block [(.prim (some "_t3") (.ext "errno") []), (.prim none (.ext "urcu_die") [.var "_t3"])]) (.skip))]) (.prim none .mb [])
@@ -501,5 +631,5 @@ def «bp.urcu_bp_synchronize_rcu.params» : List String := []
 
 /-- functions the translator could not express in the IR subset (listed, never defaulted) -/
 def untranslated : List String := []
-def translated : List String := ["urcu_memb_smp_mb_slave", "_urcu_memb_read_lock_update", "_urcu_memb_read_lock", "urcu_common_wake_up_gp", "_urcu_memb_read_unlock_update_and_wakeup", "_urcu_memb_read_unlock", "_urcu_memb_read_ongoing", "_urcu_mb_read_lock_update", "_urcu_mb_read_lock", "_urcu_mb_read_unlock_update_and_wakeup", "_urcu_mb_read_unlock", "_urcu_mb_read_ongoing", "urcu_bp_smp_mb_slave", "_urcu_bp_read_lock_update", "_urcu_bp_read_lock", "_urcu_bp_read_unlock", "_urcu_bp_read_ongoing", "_urcu_qsbr_read_lock", "_urcu_qsbr_read_unlock", "_urcu_qsbr_read_ongoing", "urcu_qsbr_wake_up_gp", "_urcu_qsbr_quiescent_state_update_and_wakeup", "_urcu_qsbr_quiescent_state", "_urcu_qsbr_thread_offline", "_urcu_qsbr_thread_online", "___cds_wfs_end", "_cds_wfs_push", "___cds_wfs_node_sync_next", "___cds_wfs_pop", "___cds_wfs_pop_all", "_cds_wfs_empty", "___cds_lfs_empty_head", "_cds_lfs_push", "___cds_lfs_pop", "___cds_lfs_pop_all", "_cds_lfs_empty", "___cds_wfcq_append", "_cds_wfcq_enqueue", "_cds_wfcq_empty", "___cds_wfcq_busy_wait", "___cds_wfcq_node_sync_next", "_cds_wfcq_node_init_atomic", "___cds_wfcq_dequeue_with_state", "___cds_wfcq_splice", "_cds_lfq_enqueue_rcu", "make_dummy", "enqueue_dummy", "rcu_free_dummy", "_cds_lfq_dequeue_rcu", "urcu_ref_get_safe", "urcu_ref_put", "urcu_ref_get_unless_zero", "urcu_wait_add", "urcu_move_waiters", "urcu_wait_set_state", "_cds_wfs_node_init", "urcu_wait_node_init", "urcu_adaptative_wake_up", "urcu_adaptative_busy_wait", "call_rcu_wait", "call_rcu_wake_up", "call_rcu_completion_wait", "call_rcu_completion_wake_up", "wake_call_rcu_thread", "_cds_wfcq_node_init", "_call_rcu", "futex_wait", "futex_wake_up", "wake_worker_thread", "wake_up_defer", "wait_defer", "rcu_defer_barrier_queue", "_rcu_defer_barrier_thread", "rcu_defer_barrier_thread", "_defer_rcu", "_cds_wfs_first", "___cds_wfs_next", "_cds_wfs_next_blocking", "urcu_wake_all_waiters", "memb.smp_mb_master", "memb.wait_gp", "urcu_common_reader_state", "memb.wait_for_readers", "memb.synchronize_rcu", "mb.smp_mb_master", "mb.wait_gp", "mb.wait_for_readers", "mb.synchronize_rcu", "qsbr.wait_gp", "urcu_qsbr_reader_state", "qsbr.wait_for_readers", "qsbr.urcu_qsbr_read_ongoing", "qsbr.urcu_qsbr_thread_offline", "qsbr.urcu_qsbr_thread_online", "qsbr.urcu_qsbr_synchronize_rcu", "bp.smp_mb_master", "urcu_bp_reader_state", "bp.wait_for_readers", "bp.urcu_bp_synchronize_rcu"]
+def translated : List String := ["urcu_memb_smp_mb_slave", "_urcu_memb_read_lock_update", "_urcu_memb_read_lock", "urcu_common_wake_up_gp", "_urcu_memb_read_unlock_update_and_wakeup", "_urcu_memb_read_unlock", "_urcu_memb_read_ongoing", "_urcu_mb_read_lock_update", "_urcu_mb_read_lock", "_urcu_mb_read_unlock_update_and_wakeup", "_urcu_mb_read_unlock", "_urcu_mb_read_ongoing", "urcu_bp_smp_mb_slave", "_urcu_bp_read_lock_update", "_urcu_bp_read_lock", "_urcu_bp_read_unlock", "_urcu_bp_read_ongoing", "_urcu_qsbr_read_lock", "_urcu_qsbr_read_unlock", "_urcu_qsbr_read_ongoing", "urcu_qsbr_wake_up_gp", "_urcu_qsbr_quiescent_state_update_and_wakeup", "_urcu_qsbr_quiescent_state", "_urcu_qsbr_thread_offline", "_urcu_qsbr_thread_online", "___cds_wfs_end", "_cds_wfs_push", "___cds_wfs_node_sync_next", "___cds_wfs_pop", "___cds_wfs_pop_all", "_cds_wfs_empty", "___cds_lfs_empty_head", "_cds_lfs_push", "___cds_lfs_pop", "___cds_lfs_pop_all", "_cds_lfs_empty", "___cds_wfcq_append", "_cds_wfcq_enqueue", "_cds_wfcq_empty", "___cds_wfcq_busy_wait", "___cds_wfcq_node_sync_next", "_cds_wfcq_node_init_atomic", "___cds_wfcq_dequeue_with_state", "___cds_wfcq_splice", "_cds_lfq_enqueue_rcu", "make_dummy", "enqueue_dummy", "rcu_free_dummy", "_cds_lfq_dequeue_rcu", "urcu_ref_get_safe", "urcu_ref_put", "urcu_ref_get_unless_zero", "urcu_wait_add", "urcu_move_waiters", "urcu_wait_set_state", "_cds_wfs_node_init", "urcu_wait_node_init", "urcu_adaptative_wake_up", "urcu_adaptative_busy_wait", "call_rcu_wait", "call_rcu_wake_up", "call_rcu_completion_wait", "call_rcu_completion_wake_up", "wake_call_rcu_thread", "_cds_wfcq_node_init", "_call_rcu", "futex_wait", "futex_wake_up", "wake_worker_thread", "wake_up_defer", "wait_defer", "rcu_defer_barrier_queue", "_rcu_defer_barrier_thread", "rcu_defer_barrier_thread", "_defer_rcu", "_cds_wfs_first", "___cds_wfs_next", "_cds_wfs_next_blocking", "urcu_wake_all_waiters", "set_thread_cpu_affinity", "_cds_wfcq_init", "___cds_wfcq_splice_blocking", "___cds_wfcq_first", "___cds_wfcq_first_blocking", "___cds_wfcq_next", "___cds_wfcq_next_blocking", "call_rcu_thread", "call_rcu", "call_rcu_lock", "urcu_ref_set", "call_rcu_unlock", "rcu_barrier", "_rcu_barrier_complete", "free_completion", "workqueue_thread", "urcu_workqueue_queue_work", "urcu_workqueue_create_completion", "urcu_ref_get", "urcu_workqueue_queue_completion", "urcu_workqueue_wait_completion", "urcu_workqueue_destroy_completion", "urcu_workqueue_flush_queued_work", "urcu_workqueue_pause_worker", "urcu_workqueue_resume_worker", "_urcu_workqueue_wait_complete", "memb.smp_mb_master", "memb.wait_gp", "urcu_common_reader_state", "memb.wait_for_readers", "memb.synchronize_rcu", "mb.smp_mb_master", "mb.wait_gp", "mb.wait_for_readers", "mb.synchronize_rcu", "qsbr.wait_gp", "urcu_qsbr_reader_state", "qsbr.wait_for_readers", "qsbr.urcu_qsbr_read_ongoing", "qsbr.urcu_qsbr_thread_offline", "qsbr.urcu_qsbr_thread_online", "qsbr.urcu_qsbr_synchronize_rcu", "bp.smp_mb_master", "urcu_bp_reader_state", "bp.wait_for_readers", "bp.urcu_bp_synchronize_rcu"]
 end UrcuVerif.Gen.Src
